@@ -1,3 +1,13 @@
--- This module serves as the root of the `BiscuitModel` library.
--- Import modules here that should be built as part of the library.
-import BiscuitModel.Basic
+-- Root of the `BiscuitModel` library: model, lemmas, property theorems.
+import BiscuitModel.Gen.Consts
+import BiscuitModel.Model.Term
+import BiscuitModel.Model.Symbols
+import BiscuitModel.Model.Expr
+import BiscuitModel.Model.Datalog
+import BiscuitModel.Model.Authorizer
+import BiscuitModel.Model.Intern
+import BiscuitModel.Lemmas.Datalog
+import BiscuitModel.Lemmas.Authorizer
+import BiscuitModel.Props.C04
+import BiscuitModel.Props.C05
+import BiscuitModel.Props.C06
